@@ -392,6 +392,13 @@ var Schemas = []Schema{
 	{"decl-dots-before-embedded-pointer-field", func(g *G) *Change {
 		return &Change{Kind: "decl", Meta: mv("N", "identifier"), Lines: lines(" type «N» struct {", "   ‹1:fields›", "-  *tgtEmbedded", "+  *replEmbedded", "   ‹2:fields›", " }")}
 	}},
+	// a removed (added) line directly in front of an identical context line: the first of two identical statements goes
+	{"stmt-remove-first-of-two-identical", func(g *G) *Change {
+		return &Change{Kind: "stmts", Meta: mv("x", "expression"), Lines: lines("-tgtDup(«x»)", " tgtDup(«x»)", " tgtAfter()")}
+	}},
+	{"stmt-add-copy-above-identical", func(g *G) *Change {
+		return &Change{Kind: "stmts", Meta: mv("x", "expression"), Lines: lines("+tgtDup(«x»)", " tgtDup(«x»)", " tgtAfter()")}
+	}},
 	{"stmt-plus-block-above-minus-block", func(g *G) *Change {
 		return &Change{Kind: "stmts", Lines: lines("+if tgtOk {", "+  ‹1:stmts›", "+}", "-if !tgtBad {", "-  ‹1:stmts›", "-}")}
 	}},
